@@ -766,7 +766,7 @@ def spellings_f() -> list[tuple]:
     return out
 
 
-def _call_ids_of_spelling(app: Any, task: Any, pos: tuple, kws: dict, p: Partial) -> list[tuple]:
+def _call_ids_of_spelling(app: Any, task: Any, pos: tuple, kws: dict, p: Partial, full: dict | None = None) -> list[tuple]:
     """Every way of writing this one call -> [(how, call_id key, bound kwargs read back)]."""
     from pynenc.call import Call
 
@@ -797,6 +797,17 @@ def _call_ids_of_spelling(app: Any, task: Any, pos: tuple, kws: dict, p: Partial
                 back = app.state_backend.get_invocation(gi.invocation_id)
                 out.append((f"{how}x{copies}", gi.call.call_id.key, gi.call.arguments.kwargs))
                 out.append((f"{how}x{copies}:read-back", back.call.call_id.key, back.call.arguments.kwargs))
+        if common is not None and full is not None:
+            # a heterogeneous batch: the same call twice, first with every parameter spelled out, then as written here
+            # (possibly leaving defaults out), and the other way round
+            leader = {k: v for k, v in full.items() if k not in common}
+            for order, batch in (("explicit-first", [leader, param]), ("explicit-last", [param, leader])):
+                grp = task.parallelize(batch, common)
+                p.count("transitions")
+                for gi in grp.invocations:
+                    back = app.state_backend.get_invocation(gi.invocation_id)
+                    out.append((f"{how}:mixed-batch:{order}", gi.call.call_id.key, gi.call.arguments.kwargs))
+                    out.append((f"{how}:mixed-batch:{order}:read-back", back.call.call_id.key, back.call.arguments.kwargs))
     return out
 
 
@@ -816,7 +827,7 @@ def _spelling_unit(item: tuple) -> Partial:
             p.count("states")
             p.count("identity_spellings")
             try:
-                results = _call_ids_of_spelling(app, task, pos, kws, p)
+                results = _call_ids_of_spelling(app, task, pos, kws, p, full=dict(assignment))
             except Exception as e:  # noqa: BLE001
                 p.violation({"clause": "identity:spelling-raises", "error": type(e).__name__},
                             {**cfg, "spelling": spelled, "error": str(e)[:300]},
